@@ -9,7 +9,7 @@ ASSUMPTIONS = [
     "sorted inside a partition) and unknown divisions, independent layouts for the two inputs of binary operations",
     "explicit refusals (NotImplementedError / ValueError) are accepted; any other exception where pandas computes a value is a violation",
     "K: the 'already sorted' decision of sort_values / set_index (_calculate_divisions) under CrossHair with the computed minima / maxima as symbolic environment values",
-    "outside: groupby-apply/transform UDFs, rolling, merge_asof, resample, quantile-based sort/set_index (data-dependent planning), strings/categoricals/datetimes, float rounding",
+    "outside: groupby-apply/transform UDFs, time-based / centred rolling windows (fixed-size trailing windows with sum, mean, count, min, max are modelled), merge_asof, resample, quantile-based sort/set_index (data-dependent planning), strings/categoricals/datetimes, float rounding",
 ]
 
 
